@@ -141,10 +141,10 @@ func c10Child(raw json.RawMessage) any {
 				res.Rounds = append(res.Rounds, fmt.Sprintf("step %d: %s", step, cur))
 				return true
 			}
-			if time.Now().After(deadline) {
+			if deadlinePassed(deadline) {
 				res.Rounds = append(res.Rounds, fmt.Sprintf("step %d: NOT CONVERGED: %s (want ranks 1..%d by join order)", step, cur, len(live)))
 				// is it a wrong-but-stable numbering (violation) or merely slow (inconclusive)?
-				if time.Since(stableSince) >= 10*c10Monitor && len(live) > 0 {
+				if time.Since(stableSince)-3*recentStall(2*time.Minute) >= 10*c10Monitor && len(live) > 0 {
 					res.Violation = fmt.Sprintf("after step %d the %d live members settled on [%s]; same group size and pairwise distinct numbers 1..%d in join order are required", step, len(live), cur, len(live))
 				} else {
 					res.Timing = true
@@ -267,7 +267,7 @@ func c10Child(raw json.RawMessage) any {
 			}
 			e.c.Unlock()
 			m.ms = couchbase.NewCBMembership(cfg, couchbase.VerifNewClient(cfg, e.agent, e.agent, e.dcp), m.bus)
-			for dl := time.Now().Add(time.Second); m.key == "" && time.Now().Before(dl); time.Sleep(time.Millisecond) {
+			for dl := time.Now().Add(time.Second); m.key == "" && !deadlinePassed(dl); time.Sleep(time.Millisecond) {
 				e.c.Lock()
 				for k := range e.c.Docs {
 					if !known[k] && strings.HasPrefix(k, reservedPrefix+"grp:instance:") && !strings.HasSuffix(k, ":all") {
